@@ -155,4 +155,136 @@ public:
 
 std::unique_ptr<IClient> make_client(asio::io_context& ioc, AppSink& sink) { return std::unique_ptr<IClient>(new ClientImpl(ioc, sink)); }
 
+namespace {
+
+class ReconnImpl : public IReconn {
+    using ctx_type = mq::detail::stream_context<stream, std::monostate>;
+    using as_type = mq::detail::autoconnect_stream<stream, ctx_type, recording_logger>;
+    asio::io_context& ioc_;
+    AppSink& sink_;
+    ctx_type ctx_;
+    mq::detail::log_invoke<recording_logger> log_;
+    std::unique_ptr<as_type> as_;
+    std::map<int, std::unique_ptr<asio::cancellation_signal>> sigs_;
+    std::map<int, std::shared_ptr<std::string>> bufs_;
+
+    asio::cancellation_slot slot_for(int op, bool with_slot) {
+        if (!with_slot) return asio::cancellation_slot();
+        auto& s = sigs_[op];
+        s.reset(new asio::cancellation_signal);
+        return s->slot();
+    }
+public:
+    ReconnImpl(asio::io_context& ioc, AppSink& sink) : ioc_(ioc), sink_(sink), ctx_(std::monostate{}), as_(new as_type(ioc.get_executor(), ctx_, log_)) {}
+    void configure(const std::string& brokers, uint16_t default_port, const ClientCfg& cfg) override {
+        as_->brokers(brokers, default_port);
+        ctx_.credentials(cfg.client_id, cfg.username, cfg.password);
+        ctx_.mqtt_context().keep_alive = cfg.keep_alive;
+    }
+    void open() override { as_->open(); }
+    void read(int op, long long timeout_ms, bool with_slot) override {
+        auto t = std::make_shared<Tok>(op, &sink_);
+        auto buf = std::make_shared<std::string>(4096, char(0));
+        bufs_[op] = buf;
+        auto d = timeout_ms < 0 ? mq::detail::duration((std::numeric_limits<mq::detail::duration::rep>::max)()) : mq::detail::duration(std::chrono::milliseconds(timeout_ms));
+        as_->async_read_some(asio::buffer(buf->data(), buf->size()), d,
+            asio::bind_cancellation_slot(slot_for(op, with_slot), [t, buf, this](error_code ec, std::size_t n) { t->invoked = true; sink_.on_io_done(t->op, ec, n); }));
+    }
+    void write(int op, std::string bytes, bool with_slot) override {
+        auto t = std::make_shared<Tok>(op, &sink_);
+        auto buf = std::make_shared<std::string>(std::move(bytes));
+        bufs_[op] = buf;
+        std::vector<asio::const_buffer> v{asio::buffer(*buf)};
+        as_->async_write(v, asio::bind_cancellation_slot(slot_for(op, with_slot), [t, buf, this](error_code ec, std::size_t n) { t->invoked = true; sink_.on_io_done(t->op, ec, n); }));
+    }
+    void shutdown(int op, bool with_slot) override {
+        auto t = std::make_shared<Tok>(op, &sink_);
+        as_->async_shutdown(asio::bind_cancellation_slot(slot_for(op, with_slot), [t, this](error_code ec) { t->invoked = true; sink_.on_io_done(t->op, ec, 0); }));
+    }
+    void emit_signal(int op, SigType type) override {
+        auto it = sigs_.find(op);
+        if (it == sigs_.end() || !it->second) return;
+        it->second->emit(asio::cancellation_type_t(int(type)));
+    }
+    void trigger(int, bool) override {}
+    void cancel() override { as_->cancel(); }
+    void close() override { as_->close(); }
+    bool is_open() const override { return as_->is_open(); }
+};
+
+}  // namespace
+
+std::unique_ptr<IReconn> make_reconn(asio::io_context& ioc, AppSink& sink) { return std::unique_ptr<IReconn>(new ReconnImpl(ioc, sink)); }
+
+namespace {
+
+// What reconnect_op needs from its owner, with public members (autoconnect_stream keeps them private and befriends the op).
+struct probe_owner {
+    using stream_type = stream;
+    using stream_ptr = std::shared_ptr<stream_type>;
+    using stream_context_type = mq::detail::stream_context<stream, std::monostate>;
+    using executor_type = stream::executor_type;
+    using logger_type = recording_logger;
+
+    executor_type _stream_executor;
+    mq::detail::async_mutex _conn_mtx;
+    asio::verif_steady_timer _connect_timer;
+    mq::detail::endpoints<logger_type> _endpoints;
+    stream_ptr _stream_ptr;
+    stream_context_type& _stream_context;
+    mq::detail::log_invoke<logger_type>& _log;
+
+    probe_owner(const executor_type& ex, stream_context_type& ctx, mq::detail::log_invoke<logger_type>& log) :
+        _stream_executor(ex), _conn_mtx(ex), _connect_timer(ex), _endpoints(ex, _connect_timer, log), _stream_context(ctx), _log(log) {
+        replace_next_layer(construct_next_layer());
+    }
+    executor_type get_executor() const noexcept { return _stream_executor; }
+    mq::detail::log_invoke<logger_type>& log() { return _log; }
+    bool is_open() const noexcept { return _stream_ptr->is_open(); }
+    void open() { open_lowest_layer(_stream_ptr, asio::ip::tcp::v4()); }
+    void close() { error_code ec; _stream_ptr->close(ec); }
+    static void open_lowest_layer(const stream_ptr& s, asio::ip::tcp p) { error_code ec; s->open(p, ec); }
+    stream_ptr construct_next_layer() const { return std::make_shared<stream_type>(_stream_executor); }
+    stream_ptr construct_and_open_next_layer(asio::ip::tcp p) const { auto s = construct_next_layer(); open_lowest_layer(s, p); return s; }
+    void replace_next_layer(stream_ptr s) { if (_stream_ptr) close(); std::exchange(_stream_ptr, std::move(s)); }
+};
+
+class ReconnectProbeImpl : public IReconn {
+    asio::io_context& ioc_;
+    AppSink& sink_;
+    probe_owner::stream_context_type ctx_;
+    mq::detail::log_invoke<recording_logger> log_;
+    std::unique_ptr<probe_owner> ow_;
+    std::map<int, std::unique_ptr<asio::cancellation_signal>> sigs_;
+public:
+    ReconnectProbeImpl(asio::io_context& ioc, AppSink& sink) : ioc_(ioc), sink_(sink), ctx_(std::monostate{}), ow_(new probe_owner(ioc.get_executor(), ctx_, log_)) {}
+    void configure(const std::string& brokers, uint16_t default_port, const ClientCfg& cfg) override {
+        ow_->_endpoints.brokers(brokers, default_port);
+        ctx_.credentials(cfg.client_id, cfg.username, cfg.password);
+    }
+    void open() override { ow_->open(); }
+    void read(int, long long, bool) override {}
+    void write(int, std::string, bool) override {}
+    void shutdown(int, bool) override {}
+    void trigger(int op, bool with_slot) override {
+        auto t = std::make_shared<Tok>(op, &sink_);
+        asio::cancellation_slot slot;
+        if (with_slot) { auto& s = sigs_[op]; s.reset(new asio::cancellation_signal); slot = s->slot(); }
+        auto h = asio::bind_cancellation_slot(slot, [t, this](error_code ec) { t->invoked = true; sink_.on_io_done(t->op, ec, 0); });
+        mq::detail::reconnect_op<probe_owner>{*ow_, std::move(h)}.perform(ow_->_stream_ptr);
+    }
+    void emit_signal(int op, SigType type) override {
+        auto it = sigs_.find(op);
+        if (it == sigs_.end() || !it->second) return;
+        it->second->emit(asio::cancellation_type_t(int(type)));
+    }
+    void cancel() override { ow_->_conn_mtx.cancel(); ow_->_connect_timer.cancel(); }
+    void close() override { ow_->close(); }
+    bool is_open() const override { return ow_->is_open(); }
+};
+
+}  // namespace
+
+std::unique_ptr<IReconn> make_reconnect_probe(asio::io_context& ioc, AppSink& sink) { return std::unique_ptr<IReconn>(new ReconnectProbeImpl(ioc, sink)); }
+
 }  // namespace sim
